@@ -181,13 +181,13 @@ def r36_none_vs_zero(ctx):
                 "%s tests `%s` by truthiness; its default is None but 0 is a "
                 "legal value, so 'zero' is taken for 'not given' (e.g. a "
                 "+00:00 zone on a truncated point becomes an unknown zone)"
-                % (f.qual, name), ("C07", "C09"))
+                % (f.qual, name), ("C07", "C09", "C20"))
         if not bad:
             rep.ok(rule, ctx.fkey(f, None, "is-none-tests"), f.loc(),
                    "%d nullable arguments for which zero is legal (%s) are "
                    "never tested by truthiness" % (len(nullable),
                                                    ", ".join(nullable)),
-                   ("C07", "C09"))
+                   ("C07", "C09", "C20"))
 
 
 # ------------------------------------------------------------------- R37
